@@ -290,6 +290,7 @@ Definition canon_mdata (lx : laxity) (d : mdata) : mdata :=
   | MHist l t => MHist (map canon_hp l) t
   | MExp l t => MExp (map (canon_ep lx) l) t
   | MSummary l => MSummary (map canon_qp l)
+  | MNone => MNone
   end.
 Definition canon_metric (lx : laxity) (m : metric) : metric :=
   mkMetric (m_name m) (m_desc m) (m_unit m) (canon_mdata lx (m_data m)).
@@ -299,16 +300,21 @@ Definition dp_guard (d : dpoint) : bool := time_ok (dp_start d) && time_ok (dp_t
 Definition hp_guard (h : hpoint) : bool := time_ok (hp_start h) && time_ok (hp_time h) && forallb ex_guard (hp_ex h).
 Definition ep_guard (p : epoint) : bool := time_ok (ep_start p) && time_ok (ep_time p) && forallb ex_guard (ep_ex p).
 Definition qp_guard (q : qpoint) : bool := time_ok (qp_start q) && time_ok (qp_time q).
-(** a metric the property speaks about: known temporality, non-negative Unix nanos *)
+(** a metric the property speaks about: a known aggregation with a known temporality, non-negative Unix nanos *)
 Definition temp_of (d : mdata) : option N :=
   match d with MSum _ t _ | MHist _ t | MExp _ t => Some t | _ => None end.
-Definition metric_valid (m : metric) : bool := match temp_of (m_data m) with Some t => temp_ok t | None => true end.
+Definition metric_valid (m : metric) : bool :=
+  match m_data m with
+  | MNone => false
+  | d => match temp_of d with Some t => temp_ok t | None => true end
+  end.
 Definition metric_guard (m : metric) : bool :=
   match m_data m with
   | MGauge l | MSum l _ _ => forallb dp_guard l
   | MHist l _ => forallb hp_guard l
   | MExp l _ => forallb ep_guard l
   | MSummary l => forallb qp_guard l
+  | MNone => true
   end.
 (** the zero threshold as read back, for the lax comparison *)
 Definition norm_metric (lx : laxity) (m : metric) : metric :=
